@@ -1,5 +1,7 @@
 From Coq Require Extraction ExtrOcamlBasic.
-From PV Require Import Lib.Bytes Model.Redundant Spec.MakeEval Spec.VerdictSound.
+From PV Require Import Lib.Bytes Model.Redundant Model.RedundantPaths Model.RedundantCond Spec.MakeEval Spec.VerdictSound
+  Spec.PathDenote Spec.SpellingIndep.
 (* oracle/common.ml mentions the type z; nothing in this model uses Z *)
 Definition c17_zero : Z := 0%Z.
-Extraction "C17_model.ml" check changed_vars guard wf_program final to_spec vars_of delete_nth c17_zero.
+Extraction "C17_model.ml" check changed_vars guard wf_program final to_spec vars_of delete_nth c17_zero
+  intern_by check_spelled check_denoted one_spelling_b analysed_alone same_denotation check_c.
